@@ -39,7 +39,32 @@ Ltac same :=
   end;
   reflexivity.
 
-Ltac by_norm := norm_hand; norm_gen; same.
+(* fallback when the two sides are not syntactically the same after normalisation: expose the
+   carries / borrows of add64 / sub64 and the comparisons as explicit conditionals and decide
+   them case by case (a borrow compared with 1 instead of with 0, z >= q for not (z < q), the
+   low word of bits.Add64 written with + ...).  Only small routines reach this branch. *)
+Ltac norm_consts :=
+  cbv beta iota zeta;
+  rewrite ?Z.eqb_refl;
+  change (1 =? 0) with false; change (0 =? 1) with false;
+  cbv beta iota zeta delta [negb].
+Ltac step_if :=
+  match goal with
+  | |- context [if ?c then _ else _] =>
+      lazymatch c with
+      | context [if _ then _ else _] => fail
+      | true => fail
+      | false => fail
+      | _ => let E := fresh "E" in destruct c eqn:E
+      end
+  end.
+Ltac semantic :=
+  cbv beta iota zeta delta [add64 sub64 fst snd];
+  rewrite ?Z.geb_leb, ?Z.leb_antisym, ?Z.gtb_ltb;
+  timeout 60 (repeat (norm_consts; step_if));
+  norm_consts; reflexivity.
+
+Ltac by_norm := norm_hand; norm_gen; first [ same | semantic | fail 1 "generated and hand-written routine differ" ].
 
 (* ------------------------------------------------------------------ *)
 (** * arith.go *)
